@@ -1,7 +1,7 @@
 from reghelp import *
 
 CHECK = dict(
-        runs=runs3('h_objcache', (16, 8, 16), (96, 48, 160), timeout=(300, 900)),
+        runs=runs3('h_objcache', (16, 8, 16), (64, 32, 96), timeout=(300, 900)),
         par=8,
         level='exploration',
         rule='one evaluation = one seeded execution (fresh process): photon threads on 1-4 vCPUs acquire/borrow and release (plain, recycling, '
@@ -15,7 +15,7 @@ CHECK = dict(
                                cov={'C_OBJCACHE_EXPIRE': 200, 'C_OBJCACHE_RECYCLE_WAIT': 2000, 'C_OBJCACHE_CTOR_FAIL': 100, 'recycler_waited_for_holders': 1000,
                                     'acquired_while_held_by_other': 5000, 'moved_out_objects': 300, 'ctor_slept': 300, 'cooldown_probe_ok': 20,
                                     'destroyed': 2000}),
-                    thorough=dict(evaluations=250, events=1000000, distinct=80,
+                    thorough=dict(evaluations=160, events=600000, distinct=60,
                                   cov={'C_OBJCACHE_EXPIRE': 5000, 'C_OBJCACHE_RECYCLE_WAIT': 50000, 'C_OBJCACHE_CTOR_FAIL': 8000, 'recycler_waited_for_holders': 25000,
                                        'acquired_while_held_by_other': 100000, 'moved_out_objects': 8000, 'ctor_slept': 8000, 'cooldown_probe_ok': 200,
                                        'destroyed': 50000})),
